@@ -3,3 +3,5 @@ import TdxProofs.Props.C15
 import TdxProofs.Props.C20
 import TdxProofs.Props.C17
 import TdxProofs.Props.C13
+import TdxProofs.Props.C08
+import TdxProofs.Props.C14
